@@ -2,6 +2,7 @@ import SpectraVerif.Driver.Util
 import SpectraVerif.Model.TridiagEigen
 import SpectraVerif.Model.HessSchur
 import SpectraVerif.Model.HessEigen
+import SpectraVerif.Model.C09Object
 namespace Drv.C09
 open Lin
 
@@ -14,7 +15,105 @@ def showMat (m : Mat Float) : String := showFs m.d
 def showCplx (canon : Bool) (v : Array (Float × Float)) : String :=
   joinSp (v.toList.map (fun z => if canon then fb (z.1 + 0.0) ++ " " ++ fb (z.2 + 0.0) else fb z.1 ++ " " ++ fb z.2))
 
+/-! ### histories on ONE object (`hist`)
+
+  `hist <trideig|schur|hesseig>  { C mode vseed n <data> | X rows cols | Q k | W k rows cols <data> }*`
+    `C`  `compute(M)` on the same object (`data`: trideig `d[0..n-1] e[0..n-2]`, else the `n × n` matrix column-major).  `mode` says how
+         the harness hands the matrix to the real class (0 owning matrix, 1 block of a larger matrix, 2 `Map` with an outer stride,
+         3 `const Ref`, 5 a strided/transposed expression that `Ref` has to copy): not visible to the model, the answer must not depend
+         on it (`vseed`: seed of the view's paddings and canaries, likewise).  `mode ≥ 10`: `Class tmp(M); obj = tmp;`, i.e. the object is
+         REPLACED by fresh + compute, and left untouched when the constructor throws.
+    `X`  `compute` with a non-square `rows × cols` matrix (`std::invalid_argument`)
+    `Q`  accessor `k`: trideig / hesseig `0 eigenvalues() 1 eigenvectors()`, schur `0 matrix_T() 1 matrix_U()`
+    `W`  schur only: `swap_T(other)` (`k = 0`) / `swap_U(other)` (`k = 1`); the answer is the caller's matrix after the exchange
+  one model object (`C09Obj.Tri / Sch / Eig`) is threaded through all steps;
+  answer: per step `ok [rows cols <bits>]` or `throw <type> <message>`, joined by ` | `. -/
+def showShaped (r c : Nat) (body : String) : String :=
+  if body.isEmpty then s!"ok {r} {c}" else s!"ok {r} {c} {body}"
+def showThrow (e : Option String) : String := match e with | none => "ok" | some m => "throw " ++ m
+
+/-- `Class tmp(M); obj = tmp;`: the matrix constructor is `compute` on a fresh object; if it throws, `obj` is not assigned -/
+def ctorStep {β : Type} (old : β) (r : β × Option String) : β × Option String :=
+  match r.2 with | none => r | some e => (old, some e)
+
+def triSteps : Nat → List String → C09Obj.Tri Float → List String → Option (List String)
+  | _, [], _, acc => some acc.reverse
+  | 0, _ :: _, _, _ => none
+  | fuel + 1, "C" :: mode :: _vseed :: n :: rest, o, acc => do
+      let mode ← parseNat? mode; let n ← parseNat? n
+      if n < 1 then none else
+      let (vals, rest) ← takeN? (2 * n - 1) rest
+      let vs ← floatArr? vals
+      let (o', e) := if mode ≥ 10 then ctorStep o (C09Obj.Tri.fresh.compute n (vs.extract 0 n) (vs.extract n (2 * n - 1)))
+                     else o.compute n (vs.extract 0 n) (vs.extract n (2 * n - 1))
+      triSteps fuel rest o' (showThrow e :: acc)
+  | fuel + 1, "X" :: r :: _c :: rest, o, acc => do
+      let r ← parseNat? r
+      let (o', e) := o.computeNonSquare r
+      triSteps fuel rest o' (showThrow e :: acc)
+  | fuel + 1, "Q" :: k :: rest, o, acc => do
+      let k ← parseNat? k
+      let s := if k == 0 then (match o.eigenvalues with | Res.ok v => showShaped v.size 1 (showFs v) | Res.throw m => "throw " ++ m)
+               else (match o.eigenvectors with | Res.ok m => showShaped m.rows m.cols (showMat m) | Res.throw m => "throw " ++ m)
+      triSteps fuel rest o (s :: acc)
+  | _, _, _, _ => none
+
+def schSteps : Nat → List String → C09Obj.Sch Float → List String → Option (List String)
+  | _, [], _, acc => some acc.reverse
+  | 0, _ :: _, _, _ => none
+  | fuel + 1, "C" :: mode :: _vseed :: n :: rest, o, acc => do
+      let mode ← parseNat? mode; let n ← parseNat? n
+      if n < 1 then none else
+      let (vals, rest) ← takeN? (n * n) rest
+      let vs ← floatArr? vals
+      let (o', e) := if mode ≥ 10 then ctorStep o (C09Obj.Sch.fresh.compute n ⟨n, n, vs⟩) else o.compute n ⟨n, n, vs⟩
+      schSteps fuel rest o' (showThrow e :: acc)
+  | fuel + 1, "X" :: _r :: _c :: rest, o, acc =>
+      let (o', e) := o.computeNonSquare
+      schSteps fuel rest o' (showThrow e :: acc)
+  | fuel + 1, "Q" :: k :: rest, o, acc => do
+      let k ← parseNat? k
+      let s := match (if k == 0 then o.matrix_T else o.matrix_U) with
+               | Res.ok m => showShaped m.rows m.cols (showMat m) | Res.throw m => "throw " ++ m
+      schSteps fuel rest o (s :: acc)
+  | fuel + 1, "W" :: k :: r :: c :: rest, o, acc => do
+      let k ← parseNat? k; let r ← parseNat? r; let c ← parseNat? c
+      let (vals, rest) ← takeN? (r * c) rest
+      let vs ← floatArr? vals
+      let (o', back) := if k == 0 then o.swap_T ⟨r, c, vs⟩ else o.swap_U ⟨r, c, vs⟩
+      schSteps fuel rest o' (showShaped back.rows back.cols (showMat back) :: acc)
+  | _, _, _, _ => none
+
+def eigSteps : Nat → List String → C09Obj.Eig Float → List String → Option (List String)
+  | _, [], _, acc => some acc.reverse
+  | 0, _ :: _, _, _ => none
+  | fuel + 1, "C" :: mode :: _vseed :: n :: rest, o, acc => do
+      let mode ← parseNat? mode; let n ← parseNat? n
+      if n < 1 then none else
+      let (vals, rest) ← takeN? (n * n) rest
+      let vs ← floatArr? vals
+      let (o', e) := if mode ≥ 10 then ctorStep o (C09Obj.Eig.fresh.compute n ⟨n, n, vs⟩) else o.compute n ⟨n, n, vs⟩
+      eigSteps fuel rest o' (showThrow e :: acc)
+  | fuel + 1, "X" :: _r :: _c :: rest, o, acc =>
+      let (o', e) := o.computeNonSquare
+      eigSteps fuel rest o' (showThrow e :: acc)
+  | fuel + 1, "Q" :: k :: rest, o, acc => do
+      let k ← parseNat? k
+      let s := if k == 0 then (match o.eigenvalues with | Res.ok v => showShaped v.size 1 (showCplx false v) | Res.throw m => "throw " ++ m)
+               else (match o.eigenvectors with
+                     | Res.ok cols => showShaped o.eivec.cols o.eivec.cols (joinSp ((cols.map (showCplx true)).filter (fun s => !s.isEmpty)))
+                     | Res.throw m => "throw " ++ m)
+      eigSteps fuel rest o (s :: acc)
+  | _, _, _, _ => none
+
+def hist : List String → Option String
+  | "trideig" :: rest => (triSteps rest.length rest C09Obj.Tri.fresh []).map (String.intercalate " | ")
+  | "schur" :: rest => (schSteps rest.length rest C09Obj.Sch.fresh []).map (String.intercalate " | ")
+  | "hesseig" :: rest => (eigSteps rest.length rest C09Obj.Eig.fresh []).map (String.intercalate " | ")
+  | _ => none
+
 def handle : List String → Option String
+  | "hist" :: args => hist args
   | "trideig" :: n :: vals => do
       let n ← parseNat? n; let vs ← floatArr? vals
       if n < 2 || vs.size ≠ 2 * n - 1 then none else
